@@ -303,6 +303,63 @@ Definition compact (c : cfg) (s : state) : state :=
   let '(s1, did) := compact_loop c (if initialized h then fuel else 1%nat) s false in
   if did then compact_ooo c s1 else s1.
 
+(* ---------------- head compaction while an appender is open ---------------- *)
+(* A series an open appender has appended to (memSeries.pendingCommit) survives the head gc even
+   without chunks; stripeSeries.gc then takes memSeries.minTime() = MinInt64 for it, so the
+   min-time adjustment does not happen.  Same definitions as above with the pending series. *)
+Definition actual_mint_p (u pend : list sid) (h : head) : Z :=
+  let a := fold_right (fun i a => let m := h_series h i in
+                                  if has_data m || memZ i pend then Z.min (oldest_min (ms_chunks m)) a else a) maxInt64 u in
+  if a =? maxInt64 then h_minT h else a.
+
+Definition gc_adjust_p (c : cfg) (pend : list sid) (h : head) : head :=
+  let h1 := gc_only h in
+  let am := actual_mint_p (universe c) pend h1 in
+  if am >? h_minT h1 then
+    let amvt := Z.max (h_maxT h1 - godiv (chunkRange c) 2) (h_minValid h1) in
+    let n := if am <? amvt then am else amvt in
+    mkHead n (h_maxT h1) n (h_series h1) (h_tomb h1)
+  else h1.
+
+Definition truncate_memory_p (c : cfg) (pend : list sid) (h : head) (mint : Z) : head :=
+  if (h_minT h >=? mint) && negb (h_minT h =? maxInt64) then h
+  else gc_adjust_p c pend (mkHead mint (Z.max (h_maxT h) mint) mint (h_series h) (h_tomb h)).
+
+Definition compact_head_once_p (c : cfg) (pend : list sid) (s : state) : state :=
+  let h := s_head s in
+  let mint := h_minT h in
+  let maxt := rangeFor mint (chunkRange c) in
+  mkState (truncate_memory_p c pend h maxt) (add_block (universe c) (head_block h mint maxt) (s_blocks s)) (s_fuelout s)
+          (s_wal s) (s_wtomb s) (s_ref s).
+
+Fixpoint compact_loop_p (c : cfg) (pend : list sid) (fuel : nat) (s : state) (did : bool) : state * bool :=
+  match fuel with
+  | O => (mkState (s_head s) (s_blocks s) (s_fuelout s || compactable c (s_head s)) (s_wal s) (s_wtomb s) (s_ref s), did)
+  | S f => if compactable c (s_head s) then compact_loop_p c pend f (compact_head_once_p c pend s) true else (s, did)
+  end.
+
+Definition compact_ooo_p (c : cfg) (pend : list sid) (s : state) : state :=
+  if oooWindow c >? 0 then
+    let h := s_head s in
+    let all := all_ooo (universe c) h in
+    match all with
+    | [] => s
+    | _ =>
+        let w := chunkRange c in
+        let lo := rangeStart (lmin all) w in
+        let hi := lmax all in
+        let starts := ranges lo hi w (Z.to_nat ((hi - lo) / w + 1)) in
+        let bs := fold_left (fun acc t => add_block (universe c) (ooo_block h t w) acc) starts (s_blocks s) in
+        mkState (gc_adjust_p c pend (clear_ooo h)) bs (s_fuelout s) (s_wal s) (s_wtomb s) (s_ref s)
+    end
+  else s.
+
+Definition compact_p (c : cfg) (pend : list sid) (s : state) : state :=
+  let h := s_head s in
+  let fuel := (Z.to_nat (Z.max 0 ((h_maxT h - h_minT h) / chunkRange c)) + 3)%nat in
+  let '(s1, did) := compact_loop_p c pend (if initialized h then fuel else 1%nat) s false in
+  if did then compact_ooo_p c pend s1 else s1.
+
 (* ---------------- CleanTombstones ---------------- *)
 Definition has_tomb (u : list sid) (b : block) : bool := existsb (fun i => negb (is_nil (b_tomb b i))) u.
 Definition clean_block (u : list sid) (b : block) : list block :=
@@ -403,7 +460,8 @@ Inductive op :=
 | Compact
 | CompactOOO
 | CleanTombstones
-| Restart (reloaded : list (sid * list sample)).
+| Restart (reloaded : list (sid * list sample))
+| CompactPending (pend : list sid).   (* DB.Compact while an appender that touched [pend] is open *)
 
 Definition assoc (l : list (sid * list sample)) : sid -> list sample :=
   fun i => match find (fun p => fst p =? i) l with Some p => snd p | None => [] end.
@@ -416,6 +474,7 @@ Definition step (c : cfg) (s : state) (o : op) : state :=
   | CompactOOO => compact_ooo c s
   | CleanTombstones => clean_tombstones c s
   | Restart rl => restart c (assoc rl) s
+  | CompactPending pend => compact_p c pend s
   end.
 
 Definition run (c : cfg) (ops : list op) : state := fold_left (step c) ops state0.
